@@ -77,6 +77,10 @@ def check(run):
             appended = 0
             if sb:
                 ext = [cc for cc in sb[0].calls() if cc.name.endswith("::extend_from_slice") or cc.name.endswith("Extend<T>>::extend") or cc.name.endswith("::extend")]
+                if not ext:
+                    # the key may be appended byte by byte (`for (k, h) in key.iter().zip(..) { payload.push(k ^ h) }`)
+                    ext = [cc for cc in sb[0].calls() if cc.name.rsplit("::", 1)[-1] in ("push", "append") and len(cc.args) > 1
+                           and any(x.endswith("encrypt_with_random_key") for x in sb[0].provenance(sb[0].operand_term(cc.args[1]), depth=8)["calls"])]
                 if ext:
                     appended = kb or 0
             o.check(m + appended == vals["MAX_DATA_PER_SLICE"], "%s|max-data" % im, "%s: MAX_DATA_SIZE + appended key bytes (%d) = MAX_DATA_PER_SLICE" % (im, appended), "", {"MAX_DATA_SIZE": m})
@@ -550,6 +554,18 @@ def ob_decode_tail(run, oid):
             t = b.operand_term(c.args[0])
             if K.mentions_call(t, "take_while") and K.mentions_call(t, "rev"):
                 scans.append((c, t))
+        loop_form = False
+        if not scans:
+            # explicit loop: `for b in payload.iter().rev() { if *b != 0 { break; } n += 1; }`
+            for c in b.calls():
+                if c.name.rsplit("::", 1)[-1] == "into_iter":
+                    t = b.operand_term(c.args[0])
+                    if K.mentions_call(t, "rev") and "u8" in mir.show(t) + b.local_ty(c.dst["l"]):
+                        zero_test = any(a[0] == "eq" and any(K.const_eval(x) == 0 for x in a[1]) for bl in b.blocks if bl["term"]["k"] == "switch" and bl["id"] in b.reach()
+                                        for a in sum(G.switch_atoms(b, bl["id"], prog).values(), []) if any(K.mentions_call(x, "next") for x in a[1] if isinstance(x, tuple)))
+                        if zero_test:
+                            scans.append((c, t))
+                            loop_form = True
         ok = len(scans) == 1
         det = {}
         if not scans:
